@@ -36,7 +36,9 @@ claim('C03', 'Lean 4 proofs (image = window of the address->byte map) + differen
 claim('C04', 'Lean 4 proofs (adjacent-range check on the stable address sort <-> pairwise disjointness) + differential correspondence',
       'Kernel-checked theorems: on the address-sorted line list the adjacent-range check passes iff all byte lines occupying at '
       'least one address are pairwise disjoint (both directions), independently of source order; zero-length lines never cause a '
-      'rejection; the sort is a stable permutation. Each run compares the accept/reject verdict of the real CLI with the impl-level '
+      'rejection; the sort is a stable permutation; the emitted lines of EVERY program are address-sorted, so for every program '
+      'accepted <-> pairwise disjoint holds without hypothesis (check_passes_iff_disjoint, accepted_program_disjoint, '
+      'overlapping_program_rejected). Each run compares the accept/reject verdict of the real CLI with the impl-level '
       'check and with the pairwise spec on generated placements.',
       NOTE)
 
@@ -61,7 +63,9 @@ claim('C05', 'Lean 4 proofs (zone cursor invariant, confinement, zone-relative v
       'Kernel-checked theorems: every zone keeps start <= cursor <= end+1 and lies inside GLOBAL; every byte line lies inside its '
       'zone and inside GLOBAL, a line that would not is rejected; a zone-relative .org is offset from the zone start, a bare one is '
       'absolute; separate stretches of one zone are laid out consecutively whatever other zones do in between; a source-declared zone '
-      'is accepted iff its name is new and it is non-inverted, inside the address width and inside GLOBAL; at the text level a '
+      'is accepted iff its name is new and it is non-inverted, inside the address width and inside GLOBAL; end to end, for every '
+      'program the model places (any zone configuration initZones accepts, any zones the source creates, any includes) every '
+      'byte-producing source line lies inside its zone and inside GLOBAL (program_lines_confined); at the text level a '
       'statement written behind a zone / origin directive on the same source line is the next statement of the list these theorems '
       'speak about (text_zone_directive_line, text_origin_label_line). Each run compares accept/reject and image of the real CLI '
       'with the model on zone-heavy programs, whose source text is also parsed by the Lean front end (structured route = text route).',
